@@ -209,11 +209,17 @@ def print_assumptions(pid, rel, names, timeout=300):
 
 
 def _parse_axioms(block):
+    """names listed by Print Assumptions.  A name starts a line (not indented); its type follows
+    after ' : ' on the same line or on the next (indented) lines."""
     if "Closed under the global context" in block:
         return []
     ax = []
     for line in block.split("\n"):
-        m = re.match(r"^([A-Za-z_][A-Za-z0-9_.']*)\s*:", line)
+        if not line or line[0].isspace():
+            continue
+        if line.strip() in ("Axioms:", "Section Variables:", "Opaque constants:", "Transparent constants:"):
+            continue
+        m = re.match(r"^([A-Za-z_][A-Za-z0-9_.']*)\s*(:.*)?$", line)
         if m:
             ax.append(m.group(1))
     return ax
